@@ -12,7 +12,7 @@ CONSTANTS
   EKeys <- EKeys7
   EMsgs <- EAll7
   ENonces <- EAll7
-  EScalars <- EAll7
+  EScalars <- EScal7
 INIT Init
 NEXT Next
 INVARIANTS PCiphertextIsEnc PDecOpen PRepLaw ECiphertextIsEnc EDecCorrect
